@@ -25,9 +25,9 @@ PROPS = {
     },
     'C07': {
         'title': 'Hierarchy resolution: descendants, initial child and SubstateOf agree',
-        'level_text': "Proof for every nesting depth (C07.expand_super, expand_leaf, expand_undeclared, resolve_super, resolve_leaf, substate_impls, edge_iff, superstate_source; Lemmas/Hier*.lean: the imperative parser walk characterised equationally, then read under the name distinctness a successful parse guarantees): a superstate source stands for exactly the leaves nested anywhere beneath it, a superstate target resolves to its declared initial leaf or else its first-declared leaf, SubstateOf<P> is emitted for leaf l exactly for the superstates enclosing l; edges of the graph are exactly the (expanded source, resolved target) pairs with event-then-transition hook lists.",
+        'level_text': "Proof for every nesting depth (C07.expand_super, expand_leaf, expand_undeclared, resolve_super, resolve_leaf, substate_impls, edge_iff, superstate_source; C07Decl.delta_declared: delta_M read off the definition tree; Lemmas/Hier*.lean: the imperative parser walk characterised equationally, then read under the name distinctness a successful parse guarantees): a superstate source stands for exactly the leaves nested anywhere beneath it, a superstate target resolves to its declared initial leaf or else its first-declared leaf, SubstateOf<P> is emitted for leaf l exactly for the superstates enclosing l; edges of the graph are exactly the (expanded source, resolved target) pairs with event-then-transition hook lists.",
         'level_note': 'Spec side (leavesUnder, initialLeaf, ancestorsOf) is plain structural recursion over the forest (SMV/Spec.lean). Ties: T1 (lookup/ancestors/initial_children/edges dumped from the real parser), T2 regions FE SUB IH SIG, T3 hier family, T4 substate probes (both polarities of the whole leaf x superstate matrix).',
-        'modules': ['SMV.Props.C07'],
+        'modules': ['SMV.Props.C07', 'SMV.Props.C07Decl'],
         'regions': ['FE', 'SUB', 'IH', 'SIG'],
         't3': ['walk'],
         't4': ['substate', 'hier-method'],
@@ -71,9 +71,9 @@ PROPS = {
     },
     'C08': {
         'title': 'State data exists exactly while its state is current and starts fresh on entry',
-        'level_text': "Proof (C08.new_establishes, fresh_on_entry, ok_preserves, err_preserves, mutation_preserves, accessor_total, absent_elsewhere): the invariant 'slot of X present iff machine in X' is established by new (initial state's data = Default), re-established by every Ok of every generated method under arbitrary hooks (including in-place mutation by callbacks), kept by refusals and mutations; on every entry (self-transitions included) the target slot is Default and all others empty; hence the infallible accessor never panics.",
+        'level_text': "Proof (C08.new_establishes, fresh_on_entry, ok_preserves, err_preserves, mutation_preserves, accessor_total, absent_elsewhere; C08Hist.step_preserves_inv, inv_along_history, read_iff_in_state: the invariant is preserved by every operation of the public API and therefore holds at every point of every history): the invariant 'slot of X present iff machine in X' is established by new (initial state's data = Default), re-established by every Ok of every generated method under arbitrary hooks (including in-place mutation by callbacks), kept by refusals and mutations; on every entry (self-transitions included) the target slot is Default and all others empty; hence the infallible accessor never panics.",
         'level_note': 'Side condition: storage field names pairwise distinct (N2; otherwise E0124). Data on superstates is modelled and token-checked; the invariant covers it too (never present). Ties: T2 regions CT CN SA XA, T3 walk/data families reading every slot after every step. History: the unchanged snapshot violated this at construction (F1), fixed by /repo commit e370adb.',
-        'modules': ['SMV.Props.C08'],
+        'modules': ['SMV.Props.C08', 'SMV.Props.C08Hist'],
         'regions': ['CT', 'CN', 'SA', 'XA'],
         't3': ['walk', 'assign', 'abandon', 'susp'],
         'design_ref': 'DESIGN.md §7 C08',
@@ -90,7 +90,7 @@ PROPS = {
     },
     'C10': {
         'title': 'Mode conversions are exact and lossless',
-        'level_text': "Proof (C10.into_dynamic_state, extract_iff, extract_method, roundtrip, default_is_new, conversions_silent): into_dynamic wraps the machine unchanged under its own state's variant; into_<s> succeeds iff the wrapper is in s and otherwise (poisoned included) hands the wrapper back unchanged; both round trips are the identity; conversions run no hook and drop nothing; Default is new(Default::default()).",
+        'level_text': "Proof (C10.into_dynamic_state, extract_iff, extract_method, roundtrip, default_is_new, conversions_silent, conversion_step, conversion_chain): into_dynamic wraps the machine unchanged under its own state's variant; into_<s> succeeds iff the wrapper is in s and otherwise (poisoned included) hands the wrapper back unchanged; both round trips are the identity; conversions run no hook and drop nothing; Default is new(Default::default()).",
         'level_note': 'Ties: T2 regions ID EX DF DN, T3 walk (into/todyn interleaved with transitions, concrete context + data).',
         'modules': ['SMV.Props.C10'],
         'regions': ['ID', 'EX', 'DF', 'DN'],
@@ -128,7 +128,7 @@ PROPS = {
     },
     'C16': {
         'title': 'Context and payload are moved, never duplicated or lost',
-        'level_text': "Proof (C16.hooks_see_own_context, context_moved, handle_keeps_context, payload_once, context_dropped_with_machine, conversions_keep_context), for any emitted method and wrapper code: every hook sees the receiver's context and every guard is handed exactly it, Ok moves it into the new machine and Err hands the receiver back, a returning handle keeps it, conversions keep it; the drop log of every call contains the payload exactly once on every path and the context exactly when the machine is destroyed (panic/abandon) and never otherwise.",
+        'level_text': "Proof (C16.hooks_see_own_context, context_moved, handle_keeps_context, payload_once, context_dropped_with_machine, conversions_keep_context, step_ctx_accounting, context_dropped_exactly_once, dropped_once_at_the_end), for any emitted method and wrapper code: every hook sees the receiver's context and every guard is handed exactly it, Ok moves it into the new machine and Err hands the receiver back, a returning handle keeps it, conversions keep it; the drop log of every call contains the payload exactly once on every path and the context exactly when the machine is destroyed (panic/abandon) and never otherwise.",
         'level_note': 'The drop log is part of the L3 reading (SMV/Ops.lean), validated by T3 drop counters. Ties: T2 regions CT CN GC SIG HD ID EX DN.',
         'modules': ['SMV.Props.C16'],
         'regions': ['CT', 'CN', 'GC', 'SIG', 'HD', 'ID', 'EX', 'DN'],
@@ -225,7 +225,8 @@ def fe_relevant(pid, diff):
     if pid in ('C18', 'C14'):
         return True     # these consume the whole front end
     parts = diff.get('fe_parts') or ['<missing>']
-    if diff.get('stream') == 'mut' and set(parts) <= {'PARSE', 'VALIDATE', 'EXPAND'}:
+    if diff.get('stream') == 'mut' and (set(parts) <= {'PARSE', 'VALIDATE', 'EXPAND'} or
+                                        diff.get('verdict') != diff.get('model_verdict')):
         # model and implementation disagree on the verdict / diagnostic of an ill-formed definition
         return pid == 'C13'
 
